@@ -88,6 +88,53 @@ pub fn run(args: &Args) -> Report {
     let what = args.get("what").unwrap_or("oneshot").to_string();
     let mut rng = Rng::new(args.seed, 0x4855_4745);
     let lens = lengths(args, &mut rng);
+    // pools wider than any per-worker table a parallel implementation might keep (C08): 65, 96 and
+    // 200 worker threads over inputs of 16-48 MiB
+    #[cfg(feature = "full")]
+    if what == "rayon" && args.only.is_none() {
+        for &threads in &[65usize, 96, 200, 33] {
+            let n = (16usize << 20) * (1 + rng.usize_below(3)) + rng.usize_below(70_000);
+            let mut data = vec![0u8; n];
+            fill_pattern(&mut data, rng.u64());
+            let mode = Mode::Keyed(gen::key(&mut rng));
+            let want = model_root(&mode, &data).root_hash();
+            let got = guarded(|| -> Result<[u8; 32], String> {
+                let pool = rayon_core::ThreadPoolBuilder::new().num_threads(threads).build().map_err(|e| e.to_string())?;
+                Ok(pool.install(|| *api::hasher_for(&mode).update_rayon(&data).finalize().as_bytes()))
+            });
+            rep.eval(format!("C08/wide-pool/{}/{}", threads, n));
+            rep.seen("wide_pool_sizes", threads.to_string());
+            match got {
+                Ok(Ok(g)) if g == want => {}
+                Ok(Err(e)) => rep.inconclusive.push(format!("cannot build a {}-thread pool: {}", threads, e)),
+                Ok(Ok(g)) => rep.violation("C08/huge/wide-pool/mismatch", format!("update_rayon of {} bytes inside a {}-thread pool: got {} want {}", n, threads, hex(&g), hex(&want)), vec!["huge".into(), "--what".into(), "rayon".into()]),
+                Err(p) => rep.violation("C08/huge/wide-pool/panic", format!("update_rayon of {} bytes inside a {}-thread pool panicked: {}", n, threads, p), vec!["huge".into(), "--what".into(), "rayon".into()]),
+            }
+        }
+    }
+    // the reference implementation fed more than 2^32 bytes in one call (C15)
+    #[cfg(feature = "full")]
+    if what == "refimpl" {
+        let n = (1usize << 32) + 1024 * (1 + rng.usize_below(64)) + rng.usize_below(1025);
+        let mut data = vec![0u8; n];
+        fill_pattern(&mut data, rng.u64());
+        let want = model_root(&Mode::Hash, &data).root_hash();
+        let got = guarded(|| {
+            let mut h = reference_impl::Hasher::new();
+            h.update(&data);
+            let mut o = [0u8; 32];
+            h.finalize(&mut o);
+            o
+        });
+        rep.eval(format!("C15/refimpl/one-update/{}", n));
+        rep.count("huge_input_bytes", n as u64);
+        match got {
+            Ok(g) if g == want => {}
+            Ok(g) => rep.violation("C15/huge/reference_impl/mismatch", format!("reference_impl::Hasher fed {} bytes in one update: got {} want {}", n, hex(&g), hex(&want)), vec!["huge".into(), "--what".into(), "refimpl".into()]),
+            Err(p) => rep.violation("C15/huge/reference_impl/panic", format!("reference_impl::Hasher fed {} bytes in one update panicked: {}", n, p), vec!["huge".into(), "--what".into(), "refimpl".into()]),
+        }
+        return rep;
+    }
     for (ci, &n) in lens.iter().enumerate() {
         if let Some(o) = args.only {
             if o != ci as u64 {
